@@ -27,6 +27,15 @@ type c08Aux struct {
 	Preserve  bool
 	Canceller bool
 	Pipelined int
+	Upgrade   *c08Upgrade
+}
+
+// c08Upgrade: an HTTP/1.1 client that upgrades the protocol through the proxy and sends opaque
+// bytes through the tunnel, which the back-end echoes.
+type c08Upgrade struct {
+	CI   int
+	Spec ReqSpec
+	Sent []byte
 }
 
 var c08Methods = []string{"GET", "POST", "PUT", "DELETE", "PATCH", "OPTIONS", "HEAD"}
@@ -146,7 +155,20 @@ func drawPieces(t *rapid.T, total int, label string) []int {
 func drawC08(t *rapid.T) *Case {
 	p := &Plan{Check: "C08", Backend: BackendPlan{Resp: map[string]*RespPlan{}}, Budget: 60000}
 	aux := &c08Aux{Reqs: map[int][]*c08Req{}}
-	p.Args = []string{"-reverse-proxy-flush-interval", "0s"}
+	// the reverse proxy's flush interval: none (only streamed responses are flushed, at once),
+	// the flag's default, a short period (a timer goroutine flushes through maxLatencyWriter
+	// while the handler copies - possible since lock waits count as blocked, DESIGN 15.5b),
+	// or immediate
+	switch rapid.IntRange(0, 9).Draw(t, "flushinterval") {
+	case 0, 1, 2, 3, 4:
+		p.Args = []string{"-reverse-proxy-flush-interval", "0s"}
+	case 5, 6:
+		p.Args = nil
+	case 7, 8:
+		p.Args = []string{"-reverse-proxy-flush-interval", []string{"1ms", "20ms", "3s"}[rapid.IntRange(0, 2).Draw(t, "flushperiod")]}
+	default:
+		p.Args = []string{"-reverse-proxy-flush-interval", "-1ns"}
+	}
 	if drawBool(t, "preserve", 50) {
 		aux.Preserve = true
 		p.Args = append(p.Args, "-preserve-host")
@@ -382,18 +404,41 @@ func drawC08(t *rapid.T) *Case {
 		metas = append(metas, &ClientMeta{Proto: "h2", Kind: "canceller"})
 		aux.Canceller = true
 	}
+	if !focus && drawBool(t, "upgrader", 20) {
+		// a further HTTP/1.1 client that upgrades the protocol (101 through the reverse proxy) and
+		// then exchanges opaque bytes with the back-end through the tunnel
+		ci := len(p.Clients)
+		cp := &ClientPlan{ID: ci, Addr: fmt.Sprintf("198.51.100.%d:%d", 10+ci, 32000+ci), Hello: fixedHello("h1")}
+		up := ReqSpec{Tag: fmt.Sprintf("c%d-up", ci), Method: "GET", Path: "/ws/" + drawToken(t, "uppath", 5), Host: "up.verif.test"}
+		up.Header = append(drawE2EHeaders(t, "x-up"), [2]string{"Connection", "Upgrade"}, [2]string{"Upgrade", "verif-echo"})
+		cp.Steps = append(cp.Steps, Step{Kind: "connect"}, Step{Kind: "h1req", Pieces: [][]byte{up.H1()}, Tag: up.Tag})
+		u := &c08Upgrade{CI: ci, Spec: up}
+		for k, n := 0, rapid.IntRange(1, 4).Draw(t, "upmsgs"); k < n; k++ {
+			ln := []int{1, 17, 1000, 16384, 40000}[rapid.IntRange(0, 4).Draw(t, "upmsglen")]
+			b := bodyBytes(fmt.Sprintf("tunnel-%d-%d", ci, k), ln)
+			if drawBool(t, "upbinary", 50) {
+				for i := range b {
+					b[i] ^= byte(i * 131)
+				}
+			}
+			u.Sent = append(u.Sent, b...)
+			cp.Steps = append(cp.Steps, Step{Kind: "tunnel", Pieces: [][]byte{b}})
+		}
+		cp.Steps = append(cp.Steps, Step{Kind: "close"})
+		if drawBool(t, "upseg", 40) {
+			cp.Seg = SegPlan{Profile: "rand", Until: 1 << 30}
+			cp.SegDown = "rand"
+		}
+		p.Clients = append(p.Clients, cp)
+		metas = append(metas, &ClientMeta{Proto: "h1", Kind: "upgrader"})
+		aux.Upgrade = u
+	}
 	p.BackendKeepAlive = drawBool(t, "beka", 40)
 	p.Fences = drawBool(t, "fences", 25)
 	p.WriteFences = focus || drawBool(t, "writefences", 30)
-	if p.WriteFences {
-		// a response without Content-Length makes ReverseProxy flush through a
-		// maxLatencyWriter, whose mutex is held across a write that the fence keeps in
-		// flight: the handler would block on a sync.Mutex, which a synctest bubble cannot
-		// wait out (DESIGN 3.2).  Held writes therefore go with Content-Length responses.
-		for _, rp := range p.Backend.Resp {
-			rp.Trailer, rp.LateTrailer, rp.NoCL = nil, nil, false
-		}
-	}
+	// (until wave 7 held writes went with Content-Length responses only: a flush through
+	// maxLatencyWriter holds its mutex across the held write, and a wait for that mutex kept
+	// the bubble from becoming quiescent; lock waits count as blocked now, DESIGN 15.5b)
 	p.SchedKind = []string{"", "rr", "priority", "random"}[rapid.IntRange(0, 3).Draw(t, "sched")]
 	p.Tape, p.Tail = drawTape(t, 128)
 	c := &Case{Plan: p, Metas: metas, Oracle: oracleC08, Aux: aux}
@@ -719,6 +764,83 @@ func oracleC08(w *World, c *Case) {
 			}
 		}
 	}
+	if aux.Upgrade != nil && w.Clients[aux.Upgrade.CI].HandshakeOK {
+		oracleC08Upgrade(w, c, aux.Upgrade, by)
+	}
+}
+
+// oracleC08Upgrade: the upgrade request reaches the back-end with its Upgrade / Connection
+// fields and its end-to-end fields, the 101 reaches the client, and the tunnel carries every
+// byte in both directions, unchanged and in order.
+func oracleC08Upgrade(w *World, c *Case, u *c08Upgrade, by map[string][]*BackendReq) {
+	cl := w.Clients[u.CI]
+	tag := u.Spec.Tag
+	brs := by[tag]
+	if len(brs) != 1 {
+		w.Violate("request_not_forwarded_once", "request_not_forwarded_once", "%s (protocol upgrade): reached the back-end %d times | %s", tag, len(brs), c.Summary)
+		return
+	}
+	br := brs[0]
+	if got := br.Header.Values("Upgrade"); !sameStrings(got, []string{"verif-echo"}) {
+		w.Violate("upgrade_request_altered", "upgrade_request_altered", "%s: back-end saw Upgrade = %q", tag, got)
+	}
+	if !strings.Contains(strings.ToLower(strings.Join(br.Header.Values("Connection"), ",")), "upgrade") {
+		w.Violate("upgrade_request_altered", "upgrade_request_altered", "%s: back-end saw Connection = %q, the upgrade token is gone", tag, br.Header.Values("Connection"))
+	}
+	if br.RequestURI != u.Spec.Path {
+		w.Violate("path_or_query_altered", "path_or_query_altered", "%s: back-end saw request target %q, client sent %q", tag, br.RequestURI, u.Spec.Path)
+	}
+	seen := map[string]bool{}
+	for _, kv := range u.Spec.Header {
+		name := strings.ToLower(kv[0])
+		if seen[name] || !strings.HasPrefix(name, "x-up") {
+			continue
+		}
+		seen[name] = true
+		if got, want := valuesCI(br.Header, name), sentValues(u.Spec.Header, name); !sameStrings(got, want) {
+			w.Violate("request_header_altered", "request_header_altered", "%s (protocol upgrade): header %s arrived as %q, client sent %q", tag, name, truncStrings(got), truncStrings(want))
+		}
+	}
+	var resp *RespRecord
+	w.mu.Lock()
+	for _, r := range cl.Resps {
+		if r.Tag == tag {
+			resp = r
+		}
+	}
+	echo := append([]byte(nil), cl.TunnelEcho...)
+	tunnel := append([]byte(nil), br.Tunnel...)
+	w.mu.Unlock()
+	if resp == nil || resp.Status != 101 {
+		st := 0
+		if resp != nil {
+			st = resp.Status
+		}
+		w.Violate("status_altered", "status_altered", "%s: the back-end switched protocols (101), the client received status %d", tag, st)
+		return
+	}
+	if got := resp.Header.Values("Upgrade"); !sameStrings(got, []string{"verif-echo"}) {
+		w.Violate("response_header_altered", "response_header_altered", "%s: 101 response carries Upgrade = %q, back-end sent [verif-echo]", tag, got)
+	}
+	if got := resp.Header.Values("X-Backend-Tag"); !sameStrings(got, []string{tag}) {
+		w.Violate("response_header_altered", "response_header_altered", "%s: 101 response carries X-Backend-Tag = %q, back-end sent %q", tag, got, tag)
+	}
+	if !bytes.Equal(tunnel, u.Sent) {
+		w.Violate("tunnel_bytes_altered", "tunnel_bytes_altered:up", "%s: the back-end received %d bytes through the tunnel, the client sent %d (first difference at %d)", tag, len(tunnel), len(u.Sent), firstDiff(tunnel, u.Sent))
+	}
+	if !bytes.Equal(echo, u.Sent) {
+		w.Violate("tunnel_bytes_altered", "tunnel_bytes_altered:down", "%s: the client received %d bytes through the tunnel, the back-end echoed %d (first difference at %d)", tag, len(echo), len(u.Sent), firstDiff(echo, u.Sent))
+	}
+	w.Probe("protocol_upgrade_checked")
+}
+
+func firstDiff(a, b []byte) int {
+	for i := 0; i < len(a) && i < len(b); i++ {
+		if a[i] != b[i] {
+			return i
+		}
+	}
+	return min(len(a), len(b))
 }
 
 func truncStrings(ss []string) []string {
@@ -772,5 +894,5 @@ func clientTrailers(w *World, ci, ri int, tag string) map[string][]string {
 
 func init() {
 	register(&CheckDef{ID: "C08", Level: "exploration", Engine: "A", Draw: drawC08,
-		Rule: "1-3 clients (raw-frame HTTP/2 with up to 4 requests in flight, or HTTP/1.1 keep-alive), each request with a drawn method (GET/POST/PUT/DELETE/PATCH/OPTIONS/HEAD), path with percent-escapes and sub-delims, net/url-parseable query (repeated keys, empty values, escapes), 0-6 end-to-end header fields (empty, repeated, 1-6 kB, separators), User-Agent present or not, cookies (split into crumbs on HTTP/2), hop-by-hop and Connection-nominated fields, body of 0 / 1 / boundary / up to 3 MiB bytes sent as DATA frames or chunks of drawn sizes, with or without Content-Length, request trailers; back-end response with drawn status (incl. 204/304/HEAD), header set, body of the same size classes written in drawn pieces with flushes, trailers (announced, unannounced, both, two-valued); 10%: a 103 (Early Hints) informational response before the final one; 25% of the HTTP/1.1 clients pipeline their requests; 30%: a further HTTP/2 client that cancels large downloads part-way; 30%: frame writes held in flight by the controller (write fence), 12%: cancel focus (four cancelled downloads next to streamed multi-frame downloads, all writes fenced); -preserve-host on/off, back-end keep-alive on/off, any write scheduler, segmentation in both directions; delivery order by the controller. Oracle: comparator in both directions (names case-insensitive, values / multiplicity / order exact, hop-by-hop set removed, Host rule, bodies byte-exact, trailers). Non-trivial: at least one request reached the back-end. Distinct: distinct controller action-label sequences."})
+		Rule: "1-3 clients (raw-frame HTTP/2 with up to 4 requests in flight, or HTTP/1.1 keep-alive), each request with a drawn method (GET/POST/PUT/DELETE/PATCH/OPTIONS/HEAD), path with percent-escapes and sub-delims, net/url-parseable query (repeated keys, empty values, escapes), 0-6 end-to-end header fields (empty, repeated, 1-6 kB, separators), User-Agent present or not, cookies (split into crumbs on HTTP/2), hop-by-hop and Connection-nominated fields, body of 0 / 1 / boundary / up to 3 MiB bytes sent as DATA frames or chunks of drawn sizes, with or without Content-Length, request trailers; back-end response with drawn status (incl. 204/304/HEAD), header set, body of the same size classes written in drawn pieces with flushes, trailers (announced, unannounced, both, two-valued); 10%: a 103 (Early Hints) informational response before the final one; 25% of the HTTP/1.1 clients pipeline their requests; 30%: a further HTTP/2 client that cancels large downloads part-way; 20%: a further HTTP/1.1 client that upgrades the protocol (101 through the reverse proxy) and exchanges 1-4 opaque messages of 1 B-40 kB with the back-end through the tunnel (request, 101 and every tunnel byte compared in both directions); 30%: frame writes held in flight by the controller (write fence), 12%: cancel focus (four cancelled downloads next to streamed multi-frame downloads, all writes fenced); -preserve-host on/off, back-end keep-alive on/off, any write scheduler, segmentation in both directions; delivery order by the controller. Oracle: comparator in both directions (names case-insensitive, values / multiplicity / order exact, hop-by-hop set removed, Host rule, bodies byte-exact, trailers). Non-trivial: at least one request reached the back-end. Distinct: distinct controller action-label sequences."})
 }
